@@ -33,16 +33,92 @@ Proof.
   - destruct (last_ss None ps) as [[nn x]|]; [eapply in_when; eauto|destruct H].
 Qed.
 
+
+(* the per-use verdicts of the oracle: "undefined" and "`set` without the Set option" *)
+Definition ubE_und (W : world) (complete : list string) (env : list (list string)) (u : suse) : bool :=
+  match s_fl u with
+  | Some sofar => tl_undefb W sofar (s_x u)
+  | None => negb (existsb (smem (s_x u)) (s_rel u ++ env)) && tl_undefb W complete (s_x u)
+  end.
+Definition ubE_set (o : options) (W : world) (complete : list string) (env : list (list string)) (u : suse) : bool :=
+  negb (o_set o) && String.eqb (s_x u) "set" && negb (smem (s_x u) (w_predeclared W)) && smem (s_x u) (w_universal W) &&
+  match s_fl u with
+  | Some sofar => negb (smem (s_x u) sofar)
+  | None => negb (existsb (smem (s_x u)) (s_rel u ++ env)) && negb (smem (s_x u) complete)
+  end.
+
+Lemma ubE_und_under W c env ns u : ubE_und W c env (under ns u) = ubE_und W c (ns :: env) u.
+Proof. unfold ubE_und, under. simpl. rewrite <- app_assoc. reflexivity. Qed.
+Lemma ubE_set_under o W c env ns u : ubE_set o W c env (under ns u) = ubE_set o W c (ns :: env) u.
+Proof. unfold ubE_set, under. simpl. rewrite <- app_assoc. reflexivity. Qed.
+Lemma ubE_und_ext W c env ns ns' u :
+  (forall x, smem x ns = smem x ns') -> ubE_und W c (ns :: env) u = ubE_und W c (ns' :: env) u.
+Proof. intros H. unfold ubE_und. destruct (s_fl u); auto. rewrite !existsb_app. simpl. rewrite H. reflexivity. Qed.
+Lemma ubE_set_ext o W c env ns ns' u :
+  (forall x, smem x ns = smem x ns') -> ubE_set o W c (ns :: env) u = ubE_set o W c (ns' :: env) u.
+Proof. intros H. unfold ubE_set. destruct (s_fl u); auto. rewrite !existsb_app. simpl. rewrite H. reflexivity. Qed.
+
+Lemma use_viol_und0 o W complete env fl n x m :
+  fl = None \/ env = [] ->
+  (In (RUndefined, m) (use_viol o W complete env fl n x) <-> m = n /\ ubE_und W complete env (mkU n x [] fl) = true).
+Proof.
+  intros Hc.
+  assert (E : ubE_und W complete env (mkU n x [] fl) =
+              negb (existsb (smem x) env) && tl_undefb W (match fl with Some s => s | None => complete end) x).
+  { unfold ubE_und. simpl. destruct fl; auto. destruct Hc as [Hc|Hc]; [discriminate|]. subst. reflexivity. }
+  rewrite E. unfold use_viol, tl_undefb. split.
+  - intros Hin.
+    destruct (existsb (smem x) env); [destruct Hin|].
+    destruct (smem x (match fl with Some s => s | None => complete end)); [destruct Hin|].
+    destruct (smem x (w_predeclared W)); [destruct Hin|].
+    destruct (smem x (w_universal W)).
+    + apply in_when in Hin. discriminate.
+    + destruct Hin as [H|[]]. inversion H; subst. simpl. auto.
+  - intros [-> Hu]. rewrite !andb_true_iff, !negb_true_iff in Hu. destruct Hu as (H1 & (H2 & H3) & H4).
+    rewrite H1, H2, H3, H4. left. reflexivity.
+Qed.
+
+Lemma use_viol_set0 o W complete env fl n x m :
+  fl = None \/ env = [] ->
+  (In (RSetUnsupported, m) (use_viol o W complete env fl n x) <-> m = n /\ ubE_set o W complete env (mkU n x [] fl) = true).
+Proof.
+  intros Hc.
+  assert (E : ubE_set o W complete env (mkU n x [] fl) =
+              negb (o_set o) && String.eqb x "set" && negb (smem x (w_predeclared W)) && smem x (w_universal W) &&
+              (negb (existsb (smem x) env) && negb (smem x (match fl with Some s => s | None => complete end)))).
+  { unfold ubE_set. simpl. destruct fl; auto. destruct Hc as [Hc|Hc]; [discriminate|]. subst. reflexivity. }
+  rewrite E. unfold use_viol. split.
+  - intros Hin.
+    destruct (existsb (smem x) env); [destruct Hin|].
+    destruct (smem x (match fl with Some s => s | None => complete end)); [destruct Hin|].
+    destruct (smem x (w_predeclared W)); [destruct Hin|].
+    destruct (smem x (w_universal W)).
+    + unfold when in Hin. destruct (negb (o_set o) && String.eqb x "set"); [|destruct Hin].
+      destruct Hin as [H|[]]. inversion H; subst. simpl. auto.
+    + destruct Hin as [H|[]]. inversion H.
+  - intros [-> Hu]. rewrite !andb_true_iff, !negb_true_iff in Hu.
+    destruct Hu as ((((H0 & H1) & H2) & H3) & (H4 & H5)).
+    rewrite H4, H5, H2, H3. unfold when. rewrite negb_true_iff in H0 || idtac. 
+    assert (Hc2 : negb (o_set o) && String.eqb x "set" = true) by (rewrite H0, H1; reflexivity).
+    rewrite Hc2. left. reflexivity.
+Qed.
+
 Section B.
 Variable o : options.
 Variable W : world.
 Variable complete : list string.
 
-Definition ubE (env : list (list string)) (u : suse) : bool :=
-  match s_fl u with
-  | Some sofar => tl_undefb W sofar (s_x u)
-  | None => negb (existsb (smem (s_x u)) (s_rel u ++ env)) && tl_undefb W complete (s_x u)
-  end.
+(* the rule and its per-use verdict: instantiated with RUndefined / ubE_und and RSetUnsupported / ubE_set *)
+Variable rr : rule.
+Hypothesis rr_ok : rr = RUndefined \/ rr = RSetUnsupported.
+Variable ubE : list (list string) -> suse -> bool.
+Hypothesis ubE_under : forall env ns u, ubE env (under ns u) = ubE (ns :: env) u.
+Hypothesis ubE_ext : forall env ns ns' u, (forall x, smem x ns = smem x ns') -> ubE (ns :: env) u = ubE (ns' :: env) u.
+Hypothesis use_viol_rr : forall env fl n x m, fl = None \/ env = [] ->
+  (In (rr, m) (use_viol o W complete env fl n x) <-> m = n /\ ubE env (mkU n x [] fl) = true).
+
+Ltac rrd K := destruct rr_ok as [Err|Err]; rewrite Err in K; discriminate.
+
 Definition X (env : list (list string)) (us : list suse) (n : N) : Prop :=
   exists u, In u us /\ s_n u = n /\ ubE env u = true.
 
@@ -56,8 +132,6 @@ Proof.
   - intros [(u & Hin & H)|(u & Hin & H)]; exists u; split; auto; apply in_or_app; auto.
 Qed.
 
-Lemma ubE_under env ns u : ubE env (under ns u) = ubE (ns :: env) u.
-Proof. unfold ubE, under. simpl. rewrite <- app_assoc. reflexivity. Qed.
 
 Lemma X_under env ns us n : X env (map (under ns) us) n <-> X (ns :: env) us n.
 Proof.
@@ -70,29 +144,17 @@ Qed.
 Lemma X_ext env ns ns' us n : (forall x, smem x ns = smem x ns') -> (X (ns :: env) us n <-> X (ns' :: env) us n).
 Proof.
   intros H. assert (E : forall u, ubE (ns :: env) u = ubE (ns' :: env) u).
-  { intros u. unfold ubE. destruct (s_fl u); auto. rewrite !existsb_app. simpl. rewrite H. reflexivity. }
+  { intros u. apply ubE_ext. exact H. }
   unfold X. split; intros (u & Hin & Hn & Hu); exists u; [rewrite <- E|rewrite E]; auto.
 Qed.
 
 Lemma use_viol_und env fl n x m :
   fl = None \/ env = [] ->
-  (In (RUndefined, m) (use_viol o W complete env fl n x) <-> X env [mkU n x [] fl] m).
+  (In (rr, m) (use_viol o W complete env fl n x) <-> X env [mkU n x [] fl] m).
 Proof.
-  intros Hc.
-  assert (E : ubE env (mkU n x [] fl) =
-              negb (existsb (smem x) env) && tl_undefb W (match fl with Some s => s | None => complete end) x).
-  { unfold ubE. simpl. destruct fl; auto. destruct Hc as [Hc|Hc]; [discriminate|]. subst. reflexivity. }
-  unfold X, use_viol. split.
-  - intros Hin. exists (mkU n x [] fl). rewrite E. unfold tl_undefb.
-    destruct (existsb (smem x) env); [destruct Hin|].
-    destruct (smem x (match fl with Some s => s | None => complete end)); [destruct Hin|].
-    destruct (smem x (w_predeclared W)); [destruct Hin|].
-    destruct (smem x (w_universal W)).
-    + apply in_when in Hin. discriminate.
-    + destruct Hin as [H|[]]. inversion H; subst. simpl. auto.
-  - intros (u & [<-|[]] & Hn & Hu). simpl in Hn. subst m. rewrite E in Hu. unfold tl_undefb in Hu.
-    rewrite !andb_true_iff, !negb_true_iff in Hu. destruct Hu as (H1 & (H2 & H3) & H4).
-    rewrite H1, H2, H3, H4. left. reflexivity.
+  intros Hc. rewrite (use_viol_rr env fl n x m Hc). unfold X. split.
+  - intros [-> H]. exists (mkU n x [] fl). simpl. auto.
+  - intros (u & [<-|[]] & Hn & Hu). simpl in Hn. auto.
 Qed.
 
 Notation s_expr' := (s_expr o W complete).
@@ -129,7 +191,7 @@ Proof. reflexivity. Qed.
 Lemma q_CIf env c r : s_clauses' env (CIf c r) = s_expr' env None c ++ s_clauses' env r. Proof. reflexivity. Qed.
 Lemma q_LCons env fl l r : s_lhss' env fl (LCons l r) = s_lhs' env fl l ++ s_lhss' env fl r. Proof. reflexivity. Qed.
 
-Definition Und (n : N) (l : list (rule * N)) : Prop := In (RUndefined, n) l.
+Definition Und (n : N) (l : list (rule * N)) : Prop := In (rr, n) l.
 Lemma Und_app n a b : Und n (a ++ b) <-> Und n a \/ Und n b.
 Proof. unfold Und. apply in_app_iff. Qed.
 Lemma Und_nil n : Und n [] <-> False.
@@ -166,7 +228,7 @@ Proof.
     assert (Hp : params_reg ps = true) by (unfold params_reg, set_eqb; rewrite H, Hreg1; reflexivity).
     rewrite (X_ext env _ _ _ m (set_eqb_mem _ _ Hp)).
     assert (D : Und m (dup_params ps) <-> False).
-    { split; [|tauto]. intros K. apply dup_params_rule in K. discriminate. }
+    { split; [|tauto]. intros K. apply dup_params_rule in K. rrd K. }
     rewrite D. tauto.
   - intros n iter IHi vars IHv cl IHc body IHb H env fl m Hc. breg H. rewrite q_EComp. simpl.
     rewrite !Und_app, X_app, X_under, !X_app, (IHi H env fl m Hc), IHv, IHc, IHb by auto. tauto.
@@ -212,7 +274,7 @@ Lemma params_reg_mem ps body x :
 Proof. intros H. rewrite !smem_app, (set_eqb_mem _ _ H). reflexivity. Qed.
 
 Lemma dup_no_und ps m : Und m (dup_params ps) <-> False.
-Proof. split; [|tauto]. intros K. apply dup_params_rule in K. discriminate. Qed.
+Proof. split; [|tauto]. intros K. apply dup_params_rule in K. rrd K. Qed.
 
 Theorem bridge_stmts :
   (forall s, reg_stmt s = true -> forall env n, Und n (s_stmt' env s) <-> X env (uses_stmt s) n) /\
@@ -268,7 +330,7 @@ Proof.
               (forall ls g f, (forall n, ~ Und n (fst (t_binds o g f ls))) /\ snd (t_binds o g f ls) = snd (tu_lhss o g f ls))).
   { apply expr_mutind; try (intros; exact I).
     - intros n x g f. rewrite r_LId. unfold tu_lhs, addg. destruct (smem x f || smem x g); simpl.
-      + split; auto. intros m K. apply in_when in K. discriminate.
+      + split; auto. intros m K. apply in_when in K. rrd K.
       + split; auto.
     - intros n ls IH g f. exact (IH g f).
     - intros es _ g f. split; auto.
@@ -287,7 +349,7 @@ Proof.
   - cbv zeta. simpl. intros K. apply in_app_or in K. destruct K as [K|K]; [|apply (IH _ _ _ K)].
     destruct t_bind_facts as [A _]. destruct (A (LId tn to) g f) as [A1 _]. apply (A1 m K).
   - destruct (smem to f).
-    + cbv zeta. simpl. intros K. apply in_app_or in K. destruct K as [K|K]; [apply in_when in K; discriminate|apply (IH _ _ _ K)].
+    + cbv zeta. simpl. intros K. apply in_app_or in K. destruct K as [K|K]; [apply in_when in K; rrd K|apply (IH _ _ _ K)].
     + apply IH.
 Qed.
 
@@ -611,19 +673,53 @@ Qed.
 
 End B.
 
+Lemma regular_flat o p : regular o p = true -> reg_stmts p = true /\ (o_global_reassign o = false \/ flat_stmts p = true).
+Proof.
+  unfold regular. intros H. apply andb_prop in H. destruct H as [H1 H2]. split; auto.
+  apply orb_prop in H2. destruct H2 as [H2|H2]; auto. left. destruct (o_global_reassign o); auto; discriminate.
+Qed.
+
 Lemma scope_viol_bridge (o : options) (W : world) (p : program) :
   regular o p = true ->
   forall n, In (RUndefined, n) (scope_viol o W p) <-> exists u, In u (undefined_uses o W p) /\ s_n u = n.
 Proof.
-  unfold regular. intros H. apply andb_prop in H. destruct H as [H1 H2].
-  assert (Hf : o_global_reassign o = false \/ flat_stmts p = true).
-  { apply orb_prop in H2. destruct H2 as [H2|H2]; auto. left. destruct (o_global_reassign o); auto; discriminate. }
-  destruct (bridge_top o W (bound_stmts p)) as [_ BTs']. destruct (BTs' p H1 Hf [] []) as [_ B].
-  intros n. unfold scope_viol. rewrite (B n). unfold X, undefined_uses, uses_prog. split.
+  intros H. destruct (regular_flat o p H) as [H1 Hf].
+  destruct (bridge_top o W (bound_stmts p) RUndefined (or_introl eq_refl) (ubE_und W (bound_stmts p))
+              (ubE_und_under W _) (ubE_und_ext W _) (use_viol_und0 o W _)) as [_ BTs'].
+  destruct (BTs' p H1 Hf [] []) as [_ B].
+  intros n. unfold scope_viol. unfold Und in B. rewrite (B n). unfold X, undefined_uses, uses_prog. split.
   - intros (u & Hin & Hn & Hu). exists u. split; auto. apply filter_In. split; auto.
-    unfold ubE in Hu. unfold unboundb. rewrite app_nil_r in Hu. exact Hu.
+    unfold ubE_und in Hu. unfold unboundb. rewrite app_nil_r in Hu. exact Hu.
   - intros (u & Hin & Hn). apply filter_In in Hin. destruct Hin as [Hin Hu]. exists u. split; auto. split; auto.
-    unfold ubE. unfold unboundb in Hu. rewrite app_nil_r. exact Hu.
+    unfold ubE_und. unfold unboundb in Hu. rewrite app_nil_r. exact Hu.
+Qed.
+
+Lemma scope_viol_bridge_set (o : options) (W : world) (p : program) :
+  regular o p = true ->
+  forall n, In (RSetUnsupported, n) (scope_viol o W p) <-> exists u, In u (set_uses o W p) /\ s_n u = n.
+Proof.
+  intros H. destruct (regular_flat o p H) as [H1 Hf].
+  destruct (bridge_top o W (bound_stmts p) RSetUnsupported (or_intror eq_refl) (ubE_set o W (bound_stmts p))
+              (ubE_set_under o W _) (ubE_set_ext o W _) (use_viol_set0 o W _)) as [_ BTs'].
+  destruct (BTs' p H1 Hf [] []) as [_ B].
+  intros n. unfold scope_viol. unfold Und in B. rewrite (B n). unfold X, set_uses, uses_prog.
+  assert (E : forall u, ubE_set o W (bound_stmts p) [] u = negb (o_set o) && set_useb W (bound_stmts p) u).
+  { intros u. unfold ubE_set, set_useb. rewrite app_nil_r. rewrite <- !andb_assoc. reflexivity. }
+  split.
+  - intros (u & Hin & Hn & Hu). rewrite E in Hu. apply andb_prop in Hu. destruct Hu as [Ho Hu].
+    destruct (o_set o); [discriminate|]. exists u. split; auto. apply filter_In. auto.
+  - intros (u & Hin & Hn). destruct (o_set o) eqn:Eo; [destruct Hin|].
+    apply filter_In in Hin. destruct Hin as [Hin Hu]. exists u. split; auto. split; auto. rewrite E, Hu. reflexivity.
+Qed.
+
+Lemma set_vs_oracle_lemma (o : options) (W : world) (p : program) :
+  regular o p = true ->
+  (forall n, In (RSetUnsupported, n) (resolve o W p) -> In (RSetUnsupported, n) (scope_viol o W p)) /\
+  ((exists n, In (RSetUnsupported, n) (scope_viol o W p)) -> exists n, In (RSetUnsupported, n) (resolve o W p)).
+Proof.
+  intros Hr. pose proof (scope_viol_bridge_set o W p Hr) as B. destruct (set_main o W p) as (S1 & S2). split.
+  - intros n H. apply B. apply S1. exact H.
+  - intros (n & H). apply B in H. destruct H as (u & Hu & _). apply S2. intros E. rewrite E in Hu. destruct Hu.
 Qed.
 
 Lemma undefined_vs_oracle_lemma (o : options) (W : world) (p : program) :
@@ -643,7 +739,7 @@ Lemma rebind_lemma (o : options) (W : world) (p : program) (r : rule) (n : N) :
      In (r, n) (scope_viol o W p) \/ (r = RLoadReassign /\ In n (top_fn_loads_stmts p))).
 Proof.
   intros Hr. destruct (rebind_main o W p r n Hr) as [A B].
-  destruct (rebind_bridge_stmts o W (bound_stmts p)) as [_ T]. specialize (T p [] [] r n Hr).
+  destruct (rebind_bridge_stmts o W (bound_stmts p) RUndefined (or_introl eq_refl)) as [_ T]. specialize (T p [] [] r n Hr).
   unfold scope_viol, rebindings in *. split.
   - intros H. apply A. apply T. exact H.
   - intros H. apply B in H. destruct H as [H|H]; auto. left. apply T. exact H.
@@ -674,4 +770,81 @@ Proof.
   destruct (rebind_lemma o W p RLoadReassign n (or_intror eq_refl)) as [A B]. split; [exact A|]. split.
   - intros H. apply B in H. destruct H as [H|[_ H]]; auto.
   - apply load_reassign_lemma.
+Qed.
+
+(* ---- a load statement inside a function is a violation of the placement rules ---- *)
+Lemma fn_load_viol (o : options) :
+  (forall s c n, c_fn c = true -> In n (fn_loads_stmt s) -> exists e, In e (v_stmt o c s)) /\
+  (forall ss c n, c_fn c = true -> In n (fn_loads_stmts ss) -> exists e, In e (v_stmts o c ss)).
+Proof.
+  apply stmt_mutind.
+  - intros e c n _ [].
+  - intros m c n _ [].
+  - intros m cnd t IHt f IHf c n Hc H. simpl in H. apply in_app_or in H.
+    change (v_stmt o c (SIf m cnd t f)) with
+      (toplevel_gate o c RIfToplevel m ++ v_expr c cnd ++ v_stmts o (in_if c) t ++ v_stmts o (in_if c) f).
+    destruct H as [H|H]; [destruct (IHt (in_if c) n Hc H) as [e He]|destruct (IHf (in_if c) n Hc H) as [e He]];
+      exists e; rewrite !in_app_iff; tauto.
+  - intros aug l e c n _ [].
+  - intros m nn x ps body IHb c n Hc H. simpl in H.
+    change (v_stmt o c (SDef m nn x ps body)) with
+      (v_defaults c ps ++ v_params [] [] ps ++ v_params_tail ps ++ v_stmts o (in_body c) body).
+    destruct (IHb (in_body c) n eq_refl H) as [e He]. exists e. rewrite !in_app_iff. tauto.
+  - intros m vars iter body IHb c n Hc H. simpl in H.
+    change (v_stmt o c (SFor m vars iter body)) with
+      (toplevel_gate o c RForToplevel m ++ v_expr c iter ++ v_lhs c false vars ++ v_stmts o (in_loop c) body).
+    destruct (IHb (in_loop c) n Hc H) as [e He]. exists e. rewrite !in_app_iff. tauto.
+  - intros m cnd body IHb c n Hc H. simpl in H.
+    change (v_stmt o c (SWhile m cnd body)) with
+      (when (negb (o_while o)) RWhileUnsupported m ++ toplevel_gate o c RWhileToplevel m
+       ++ v_expr c cnd ++ v_stmts o (in_loop c) body).
+    destruct (IHb (in_loop c) n Hc H) as [e He]. exists e. rewrite !in_app_iff. tauto.
+  - intros m e c n _ [].
+  - intros m items c n Hc _. exists (RLoadInFunction, m).
+    change (v_stmt o c (SLoad m items)) with
+      ((if c_fn c then [(RLoadInFunction, m)] else if c_loop c then [(RLoadInLoop, m)]
+        else when (c_if c) RLoadInConditional m)
+       ++ flat_map (fun it => match it with (fn, from, _, _) => when (underscore from) RLoadUnderscore fn end) items).
+    rewrite Hc. left. reflexivity.
+  - intros c n _ [].
+  - intros s IHs r IHr c n Hc H. simpl in H. apply in_app_or in H.
+    change (v_stmts o c (SCons s r)) with (v_stmt o c s ++ v_stmts o c r).
+    destruct H as [H|H]; [destruct (IHs c n Hc H) as [e He]|destruct (IHr c n Hc H) as [e He]];
+      exists e; rewrite in_app_iff; tauto.
+Qed.
+
+Lemma top_fn_load_viol (o : options) :
+  (forall s c n, In n (top_fn_loads_stmt s) -> exists e, In e (v_stmt o c s)) /\
+  (forall ss c n, In n (top_fn_loads_stmts ss) -> exists e, In e (v_stmts o c ss)).
+Proof.
+  destruct (fn_load_viol o) as [_ FL].
+  apply stmt_mutind.
+  - intros e c n [].
+  - intros m c n [].
+  - intros m cnd t IHt f IHf c n H. simpl in H. apply in_app_or in H.
+    change (v_stmt o c (SIf m cnd t f)) with
+      (toplevel_gate o c RIfToplevel m ++ v_expr c cnd ++ v_stmts o (in_if c) t ++ v_stmts o (in_if c) f).
+    destruct H as [H|H]; [destruct (IHt (in_if c) n H) as [e He]|destruct (IHf (in_if c) n H) as [e He]];
+      exists e; rewrite !in_app_iff; tauto.
+  - intros aug l e c n [].
+  - intros m nn x ps body _ c n H. simpl in H.
+    change (v_stmt o c (SDef m nn x ps body)) with
+      (v_defaults c ps ++ v_params [] [] ps ++ v_params_tail ps ++ v_stmts o (in_body c) body).
+    destruct (FL body (in_body c) n eq_refl H) as [e He]. exists e. rewrite !in_app_iff. tauto.
+  - intros m vars iter body IHb c n H. simpl in H.
+    change (v_stmt o c (SFor m vars iter body)) with
+      (toplevel_gate o c RForToplevel m ++ v_expr c iter ++ v_lhs c false vars ++ v_stmts o (in_loop c) body).
+    destruct (IHb (in_loop c) n H) as [e He]. exists e. rewrite !in_app_iff. tauto.
+  - intros m cnd body IHb c n H. simpl in H.
+    change (v_stmt o c (SWhile m cnd body)) with
+      (when (negb (o_while o)) RWhileUnsupported m ++ toplevel_gate o c RWhileToplevel m
+       ++ v_expr c cnd ++ v_stmts o (in_loop c) body).
+    destruct (IHb (in_loop c) n H) as [e He]. exists e. rewrite !in_app_iff. tauto.
+  - intros m e c n [].
+  - intros m items c n [].
+  - intros c n [].
+  - intros s IHs r IHr c n H. simpl in H. apply in_app_or in H.
+    change (v_stmts o c (SCons s r)) with (v_stmt o c s ++ v_stmts o c r).
+    destruct H as [H|H]; [destruct (IHs c n H) as [e He]|destruct (IHr c n H) as [e He]];
+      exists e; rewrite in_app_iff; tauto.
 Qed.
